@@ -109,6 +109,25 @@ func c16Sets() []*sgen.Schema {
 			{Kind: sgen.KScalar, Name: "Int64"},
 			{Kind: sgen.KInput, Name: "When", Fields: []*sgen.Field{{Name: "at", Type: N("Time")}}},
 		}},
+		// an object that takes on an interface through an extend block: alone in a load it changes no table, only the object
+		{Defs: []*sgen.Def{
+			{Kind: sgen.KObject, Name: "Query", Fields: []*sgen.Field{f("n", N("Named")), f("a", N("A"))}},
+			{Kind: sgen.KInterface, Name: "Named", Fields: []*sgen.Field{f("name", N("String"))}},
+			{Kind: sgen.KObject, Name: "A", Fields: []*sgen.Field{f("name", N("String"))}},
+			{Kind: sgen.KObject, Name: "B", Implements: []string{"Named"}, Fields: []*sgen.Field{f("name", N("String"))}},
+			{Kind: sgen.KObject, Name: "A", Extend: true, Implements: []string{"Named"}},
+			{Kind: sgen.KUnion, Name: "AB", Members: []string{"B"}},
+			{Kind: sgen.KUnion, Name: "AB", Extend: true, Members: []string{"A"}},
+		}},
+		// a directive whose argument default is an input object, a use that leaves the argument out, the input type extended with
+		// a defaulted field: the use's argument is the directive's default as it stands when everything is loaded
+		{Defs: []*sgen.Def{
+			{Kind: sgen.KObject, Name: "Query", Fields: []*sgen.Field{f("t", N("T"))}},
+			{Kind: sgen.KInput, Name: "Opts", Fields: []*sgen.Field{{Name: "a", Type: N("Int"), HasDef: true, Default: 1}}},
+			{Kind: sgen.KDirective, Name: "opt", Locations: []string{"OBJECT"}, Args: []*sgen.Arg{{Name: "o", Type: N("Opts"), HasDef: true, Default: map[string]interface{}{"a": 1}}}},
+			{Kind: sgen.KObject, Name: "T", Dirs: []sgen.DirUse{{Name: "opt"}}, Fields: []*sgen.Field{f("x", N("Int"))}},
+			{Kind: sgen.KInput, Name: "Opts", Extend: true, Fields: []*sgen.Field{{Name: "b", Type: N("Int"), HasDef: true, Default: 2}}},
+		}},
 		// a type and a directive of the same name (two name spaces): a use of the directive means the directive wherever the
 		// type of that name arrived
 		{Defs: []*sgen.Def{
@@ -304,6 +323,13 @@ func c16Load(units []sgen.Unit, arr arrangement, dirNames []string, wantIntro bo
 			o.err = fmt.Sprintf("load %d: %v", li+1, err)
 			return o
 		}
+		// the root is looked at between the loads (introspection, print): whatever it remembers from that is not the schema
+		if li+1 < len(arr.loads) {
+			if pi := core.Safe(func() { _ = root.ResolveString(introQuery, "", nil); _ = root.SDL(false, true) }); pi != nil {
+				o.panicked = pi
+				return o
+			}
+		}
 	}
 	o.accepted = true
 	back, err := sgen.FromRoot(root, dirNames)
@@ -418,7 +444,7 @@ func runC16(c *core.Ctx) {
 			c.Violation("canonical-refused", map[string]string{"set": fmt.Sprint(si)}, map[string]interface{}{"set": si, "sdl": set.SDL(), "error": ref.err, "panic": ref.panicked})
 			continue
 		}
-		want := set.Canonical(sgen.CanonOpts{FillDirDefaults: true})
+		want := set.Canonical(sgen.CanonOpts{FillDirDefaults: true, FillInputs: true})
 		if ref.canon != want {
 			c.Violation("canonical-differs", map[string]string{"set": fmt.Sprint(si)}, map[string]interface{}{"set": si, "sdl": set.SDL(), "diff": firstLineDiff(want, ref.canon)})
 			continue
